@@ -12,5 +12,6 @@ var Scenarios = map[string]func() *Scenario{
 	"C09": C09Scenario,
 	"C10": C10Scenario,
 	"C11": C11Scenario,
+	"C12": C12Scenario,
 	"C16": C16Scenario,
 }
